@@ -44,7 +44,9 @@ def build(case):
     bg_steps = [step(t, table=[t], doc=None) for t in ts[:2]] + [step(t0, doc=t0, media=t0)]
     bg = {"background": {"id": gid(), "location": LOC, "keyword": "Background", "name": t0, "description": "", "steps": bg_steps}}
     steps = [step(t) for t in ts] + [step("tbl", table=ts), step("doc", doc="\n".join(ts), media=t0), step("doc-no-media", doc=t0),
-                                     step("media only", doc="plain content", media=t0), step("cell only", table=["plain", t0])]
+                                     step("media only", doc="plain content", media=t0), step("cell only", table=["plain", t0]),
+                                     # a table row that mirrors the examples header: one placeholder per column, in header order (and reversed)
+                                     step("mirror", table=["<%s>" % h for h in hs]), step("mirror reversed <%s>" % hs[-1], table=["<%s>" % h for h in reversed(hs)])]
     header = {"id": gid(), "location": LOC, "cells": [{"location": LOC, "value": h} for h in hs]}
     row = {"id": gid(), "location": LOC, "cells": [{"location": LOC, "value": v} for v in vs]}
     body = [row] + [{"id": gid(), "location": LOC, "cells": [{"location": LOC, "value": v} for v in r]} for r in case.get("more_rows", [])]
@@ -132,6 +134,10 @@ def check_interp(case, stats):
     c4 = [c["value"] for c in own[k + 4]["argument"]["dataTable"]["rows"][0]["cells"]]
     if c4 != ["plain", L(ts[0])]:
         raise Violation(case, "data table of a step without placeholder in its text: %r, expected %r" % (c4, ["plain", L(ts[0])]))
+    for off, order in ((5, list(hs)), (6, list(reversed(hs)))):
+        cm = [c["value"] for c in own[k + off]["argument"]["dataTable"]["rows"][0]["cells"]]
+        if cm != [L("<%s>" % h) for h in order]:
+            raise Violation(case, "data table row made of the header's placeholders %r (values %r): cells %r, literal substitution gives %r" % (order, vs, cm, [L("<%s>" % h) for h in order]))
 
 
 def templates_for(h):
